@@ -242,6 +242,31 @@ func TestC09(t *testing.T) {
 		}
 	}
 	u8 := &Ty{Kind: "u", N: 1}
+	// a single value of more than a megabyte, into a fresh destination and into recycled ones of
+	// smaller capacity (also followed by another variable-size field)
+	{
+		bigL := &Ty{Kind: "list", Elem: u8, N: 1 << 40}
+		nbig := 1<<20 + 4097
+		bigV := &Val{Kind: "seq", Seq: make([]*Val, nbig)}
+		small := [256]*Val{}
+		for i := range small {
+			small[i] = &Val{Kind: "n", U: bigInt(int64(i))}
+		}
+		for i := range bigV.Seq {
+			bigV.Seq[i] = small[g.r.Intn(256)]
+		}
+		tail := &Val{Kind: "seq", Seq: []*Val{small[1], small[2], small[3]}}
+		pair := &Ty{Kind: "cont", Fields: []*Ty{bigL, bigL}}
+		pv := &Val{Kind: "cont", Seq: []*Val{bigV, tail}}
+		prevL := &Val{Kind: "seq", Seq: []*Val{small[9], small[8], small[7], small[6], small[5]}}
+		out.emit("bigval-reuse", "c09", []string{bigL.Sexp(), bigV.Sexp(), prevL.Sexp()}, c09Obs(bigL, bigV, prevL))
+		prevP := &Val{Kind: "cont", Seq: []*Val{prevL, prevL}}
+		out.emit("bigval-reuse", "c09", []string{pair.Sexp(), pv.Sexp(), prevP.Sexp()}, c09Obs(pair, pv, prevP))
+		if thorough() {
+			out.emit("bigval", "c09", []string{bigL.Sexp(), bigV.Sexp(), "-"}, c09Obs(bigL, bigV, nil))
+			out.emit("bigval", "c09", []string{pair.Sexp(), pv.Sexp(), "-"}, c09Obs(pair, pv, nil))
+		}
+	}
 	corpus := []*Ty{
 		{Kind: "list", Elem: u8, N: 40},
 		{Kind: "vec", Elem: u8, N: 7},
